@@ -364,6 +364,35 @@ func verifC06(mode, L int) {
 	genLog = nil
 	out2, err2 := ht.Render()
 	vfAssert(vfAnd(err2 == nil, out2 == out), "second-render-same")
+	// the generator may be set or replaced after a first render: the next render uses the current one
+	var log2 []int
+	ht.SetRowClassGenerator(func(rowNum int, ctx interface{}) template.HTMLAttr {
+		log2 = append(log2, rowNum)
+		return template.HTMLAttr("second")
+	}, nil)
+	genLog = nil
+	out3, err3 := ht.Render()
+	vfAssert(err3 == nil, "render-after-generator-change-ok")
+	vfAssert(len(genLog) == 0, "replaced-generator-no-longer-called")
+	nRows := 1
+	for _, w := range want {
+		if w.tag && w.name == "tr" {
+			nRows++
+		}
+	}
+	vfAssert(len(log2) == nRows-1, "current-generator-called-once-per-emitted-row")
+	if err3 == nil {
+		toks3, ok3 := vfTokenize(out3)
+		vfAssert(ok3, "well-formed-and-no-raw-markup-from-text")
+		for _, tk := range toks3 {
+			if tk.tag && tk.name == "tr" {
+				vfAssert(len(tk.attrs) == 2, "current-generator-class-emitted")
+				if len(tk.attrs) == 2 {
+					vfAssert(tk.attrs[1] == "second", "current-generator-class-emitted")
+				}
+			}
+		}
+	}
 }
 
 func VerifC06_attributes() {
